@@ -41,6 +41,8 @@ DESCRIPTIONS = [
     "Two  inner  blanks",
     "Ends with dash -",
     "Literal <nowiki>markup</nowiki> inside",
+    "\"Quoted start\" and then text",
+    "Tab-free, comma, semi; colon: done",
 ]
 
 
@@ -421,6 +423,18 @@ def edits_menu(root):
                     break
             add_node(std_top, "Zq-rooted-node", "A rooted library node.", {"rooted": [std_top.findtext("name")]}, lib)
         menu.append(("add-rooted-library-node", add_rooted))
+        for parent_name in ("Event", "Agent", "Item"):
+            def add_rooted_tree(rt, parent_name=parent_name):
+                parent = find(rt, parent_name) if False else None
+                for n, d in all_nodes(rt):
+                    if d == 0 and n.findtext("name") == parent_name:
+                        parent = n
+                if parent is None:
+                    return
+                top = add_node(parent, "Zq-rooted-" + parent_name, "A rooted library subtree.", {"rooted": [parent_name]}, lib)
+                kid = add_node(top, "Zq-rooted-kid-" + parent_name, "Child of the rooted node.", {}, lib)
+                add_node(kid, "Zq-rooted-grandkid-" + parent_name, "Grandchild.", {}, lib)
+            menu.append((f"add-rooted-subtree:{parent_name}", add_rooted_tree))
     return menu
 
 
@@ -560,7 +574,7 @@ def build_jobs(thorough):
         sub = labels if thorough else labels[::3]
         if partnered:
             core_edits = ["add-unit", "add-unit:last-class", "add-unit-class", "add-value-class", "add-unit-modifier", "add-rooted-library-node",
-                          "add-leaf:top", "add-node-multi-valued:suggestedTag", "add-value-taking-node:1u1v"]
+                          "add-leaf:top", "add-node-multi-valued:suggestedTag", "add-value-taking-node:1u1v", "add-rooted-subtree:Agent"]
             sub = labels[::2] if thorough else [l for l in labels if l in core_edits]
             depth = 2
         for d in range(2, depth + 1):
